@@ -8,33 +8,54 @@ workspace reloads: snapshot `(version, open files)` under the workspace-manager 
 disk + snapshot, then the `sync_reloaded_open_files` loop: re-snapshot, stop when the version is the applied
 one, else apply and repeat).
 
-* `C29_reload_converges` — for **every** notification list, **every** number of reload requests, **every**
-  disk content and **every** interleaving of main-loop steps and reload steps: when everything has finished,
-  every open file is analysed with its editor text and every other file with its disk content (absent when
-  not on disk).
+* `C29_reload_converges` — for **every** notification list, **every** list of reload requests (each with the
+  workspace matcher of its configuration, so documents may enter or leave the workspace), **every** initial
+  matcher, **every** disk content and **every** interleaving of main-loop steps and reload steps: when
+  everything has finished, every uri that is a workspace file *now* is analysed with the text the *editor* holds (`ed`, a ghost
+  component: last didOpen/didChange in message order) if it is open and with its disk content otherwise (absent when not on disk) — whatever its membership was when it was
+  opened. Hypothesis on the handlers (`realCfg.syncBeforeCheck`, T-src `C29_cfg_real`): the editor text is
+  recorded unconditionally, in the critical section that also answers the membership question, so the reload's
+  snapshot contains every open document of the new workspace.
 * `C29_loop_terminates` — every schedule is finite: `|schedule| + measure(end) ≤ measure(start)`; the sync
   loop cannot spin (a further round needs a further edit).
 * Each mechanism is needed (counter-schedules by `decide`): `C29_no_loop_loses_edit`,
-  `C29_no_version_bump_on_close_keeps_closed_file`.
+  `C29_no_version_bump_on_close_keeps_closed_file`, `C29_test_before_sync_loses_excluded_document` (the handler
+  returns before `sync_open_file` for a non-workspace document: a reload that brings the document into the
+  workspace analyses the disk text).
 * Tie (T-src): `Gen.reloadCfg` etc. are read from `workspace_manager.rs` / `reload_workspace_files` on every
   run (`C29_cfg_real`, `C29_snapshot_facts`).
 
 Partial: the disk is fixed during the run (file-watch events are separate tasks, C28/C30), versions do not
-wrap (`u64`), all uris are workspace files, tokio's scheduler is not exhibited.
+wrap (`u64`), tokio's scheduler is not exhibited; nothing is claimed about uris outside the workspace.
 -/
 namespace SchedReload
 
 /-- **C29.** -/
-theorem C29_reload_converges (disk : TMap) (ms : List Notif) (reloads : Nat) (sched : List Label) (s : St)
-    (hrun : run realCfg disk (init disk ms reloads) sched = some s) (hq : quiescent s) (u : Uri) :
-    s.an u = overlay s.wm disk u := by
-  have inv := inv_run (inv_init disk ms reloads) hrun
+theorem C29_reload_converges (disk : TMap) (m0 : Uri → Bool) (ms : List Notif) (reloads : List (Uri → Bool))
+    (sched : List Label) (s : St)
+    (hrun : run realCfg disk (init disk m0 ms reloads) sched = some s) (hq : quiescent s) (u : Uri)
+    (hm : s.member u = true) : s.an u = overlay s.ed disk u := by
+  obtain ⟨inv, e⟩ := both_run (inv_init disk m0 ms reloads) (edInv_init disk m0 ms reloads) hrun
   obtain ⟨_, hc, hr, hi⟩ := hq
-  rcases inv.owe u with h | h | h
-  · exact h
-  · rw [hc] at h; rcases h with ⟨_, h⟩ | h <;> cases h
-  · cases hrp : s.rp <;> rw [hrp] at hi <;> simp [RPhase.isIdle] at hi
-    rw [hrp, hr] at h; simp [Pend] at h
+  have hwm : s.wm u = s.ed u := e.edWm u (by rw [hc]; simp) (by rw [hc]; simp)
+  have : s.an u = overlay s.wm disk u := by
+    rcases inv.owe u with h | h | h
+    · exact h hm
+    · rw [hc] at h; rcases h with ⟨_, h⟩ | h <;> cases h
+    · cases hrp : s.rp <;> rw [hrp] at hi <;> simp [RPhase.isIdle] at hi
+      rw [hrp, hr] at h; simp [Pend] at h
+  rw [this]; simp only [overlay, hwm]
+
+/-- at quiescence the server's record of the open documents (`open_file_texts`) is exactly the editor's view
+(`ed`: text of the last didOpen/didChange per uri in message order, nothing after didClose) — whatever the
+membership of the documents was when the notifications arrived -/
+theorem C29_record_is_editor_view (disk : TMap) (m0 : Uri → Bool) (ms : List Notif) (reloads : List (Uri → Bool))
+    (sched : List Label) (s : St)
+    (hrun : run realCfg disk (init disk m0 ms reloads) sched = some s) (hq : quiescent s) (u : Uri) :
+    s.wm u = s.ed u := by
+  obtain ⟨_, e⟩ := both_run (inv_init disk m0 ms reloads) (edInv_init disk m0 ms reloads) hrun
+  obtain ⟨_, hc, _, _⟩ := hq
+  exact e.edWm u (by rw [hc]; simp) (by rw [hc]; simp)
 
 /-- reading of the conclusion: open ⇒ editor text; closed ⇒ disk content or absent -/
 theorem C29_overlay_meaning (wm disk : TMap) (u : Uri) :
@@ -59,26 +80,40 @@ theorem C29_loop_terminates (disk : TMap) (s s' : St) (sched : List Label)
 
 /-! ## Tie to the source -/
 
+/-- version bumps, loop, and: both handlers call `sync_open_file` unconditionally, before any `should_process` test -/
 theorem C29_cfg_real : Gen.reloadCfg = realCfg := by decide
 
-theorem C29_snapshot_facts : Gen.reloadSnapshotAtomic = true ∧ Gen.reloadPrefersOpenText = true := by decide
+theorem C29_snapshot_facts :
+    Gen.reloadSnapshotAtomic = true ∧ Gen.reloadPrefersOpenText = true ∧ Gen.reloadMembershipWithSync = true := by decide
 
 /-- **C29 for the mechanisms found in the source.** -/
-theorem C29_server_reload_converges (disk : TMap) (ms : List Notif) (reloads : Nat) (sched : List Label) (s : St)
-    (hrun : run Gen.reloadCfg disk (init disk ms reloads) sched = some s) (hq : quiescent s) (u : Uri) :
-    s.an u = overlay s.wm disk u := by
+theorem C29_server_reload_converges (disk : TMap) (m0 : Uri → Bool) (ms : List Notif) (reloads : List (Uri → Bool))
+    (sched : List Label) (s : St)
+    (hrun : run Gen.reloadCfg disk (init disk m0 ms reloads) sched = some s) (hq : quiescent s) (u : Uri)
+    (hm : s.member u = true) : s.an u = overlay s.ed disk u := by
   rw [C29_cfg_real] at hrun
-  exact C29_reload_converges disk ms reloads sched s hrun hq u
+  exact C29_reload_converges disk m0 ms reloads sched s hrun hq u hm
 
 def exDisk : TMap := fun u => if u = 0 then some 90 else none
+def allIn : Uri → Bool := fun _ => true
+/-- uri 2 (an `ignoreDir` directory) is excluded -/
+def without2 : Uri → Bool := fun u => u != 2
 
 /-- satisfiable on a non-trivial run: an edit lands between the snapshot and the rebuild, another one and a
 close during the loop; the loop needs two extra rounds -/
 example :
-    ∃ s, run realCfg exDisk (init exDisk [.edit 0 1, .edit 1 2, .edit 0 3, .close 1] 1)
+    ∃ s, run realCfg exDisk (init exDisk allIn [.edit 0 1, .edit 1 2, .edit 0 3, .close 1] [allIn])
       [.main, .main, .main, .reload, .rstep, .main, .main, .main, .rstep, .rstep, .rstep, .main, .main, .rstep,
        .main, .rstep, .rstep, .main, .main, .rstep, .rstep, .rstep, .main] = some s ∧
       quiescentB s = true ∧ s.an 0 = some 3 ∧ s.an 1 = none ∧ s.wm 0 = some 3 := by
+  decide
+
+/-- … and with a membership change: document 2 is opened and edited while excluded (recorded, not analysed), then
+a reload whose configuration includes it analyses the editor text -/
+example :
+    ∃ s, run realCfg exDisk (init exDisk without2 [.edit 2 7, .edit 2 8] [allIn])
+      [.main, .main, .main, .main, .reload, .rstep, .rstep, .rstep, .rstep] = some s ∧
+      quiescentB s = true ∧ s.member 2 = true ∧ s.wm 2 = some 8 ∧ s.an 2 = some 8 := by
   decide
 
 /-! ## Each mechanism is needed -/
@@ -86,7 +121,7 @@ example :
 /-- **without the sync loop** an edit that lands between the snapshot and the rebuild is overwritten by the
 snapshot text -/
 theorem C29_no_loop_loses_edit :
-    ∃ s, run { realCfg with syncLoop := false } exDisk (init exDisk [.edit 0 1, .edit 0 2] 1)
+    ∃ s, run { realCfg with syncLoop := false } exDisk (init exDisk allIn [.edit 0 1, .edit 0 2] [allIn])
       [.main, .main, .main, .reload, .rstep, .main, .main, .main, .rstep, .rstep] = some s ∧
       quiescentB s = true ∧ s.wm 0 = some 2 ∧ s.an 0 = some 1 := by
   decide
@@ -94,9 +129,19 @@ theorem C29_no_loop_loses_edit :
 /-- **without the version bump in `close_open_file`** a close between the snapshot and the rebuild goes
 unnoticed: the closed, not-on-disk file is resurrected with its snapshot text -/
 theorem C29_no_version_bump_on_close_keeps_closed_file :
-    ∃ s, run { realCfg with bumpOnClose := false } exDisk (init exDisk [.edit 1 5, .close 1] 1)
+    ∃ s, run { realCfg with bumpOnClose := false } exDisk (init exDisk allIn [.edit 1 5, .close 1] [allIn])
       [.main, .main, .main, .reload, .rstep, .main, .main, .main, .rstep, .rstep, .rstep] = some s ∧
       quiescentB s = true ∧ s.wm 1 = none ∧ s.an 1 = some 5 ∧ exDisk 1 = none := by
+  decide
+
+/-- **membership test before `sync_open_file`** (the handler returns early for a non-workspace document and
+records nothing): document 0 (on disk, text 90) is opened and edited while excluded; the reload that brings it
+into the workspace finds no open document and no version change — the disk text is analysed although the
+editor holds text 8. -/
+theorem C29_test_before_sync_loses_excluded_document :
+    ∃ s, run { realCfg with syncBeforeCheck := false } exDisk (init exDisk (fun u => u != 0) [.edit 0 7, .edit 0 8] [allIn])
+      [.main, .main, .main, .main, .reload, .rstep, .rstep, .rstep, .rstep] = some s ∧
+      quiescentB s = true ∧ s.member 0 = true ∧ s.ed 0 = some 8 ∧ s.an 0 = some 90 ∧ s.wm 0 = none := by
   decide
 
 end SchedReload
